@@ -147,7 +147,7 @@ def op_tables(quick, rng):
     return tabs
 
 
-def climb_case(cid, tab, level_order, fn):
+def climb_case(cid, tab, level_order, fn, prefix=0):
     """tab = [(assoc, nops)] per level (index 0 = weakest); level numbers are
     taken from level_order so that declaration order and level order differ."""
     names = "PQRSTUVW"
@@ -162,6 +162,12 @@ def climb_case(cid, tab, level_order, fn):
     decl = ops[1::2] + ops[0::2]
     for nm, lvl, assoc in decl:
         alts.append("e %s e @%s(%d)" % (nm, "right" if assoc else "left", lvl))
+    # a qualified *prefix* production that reuses a binary operator's token (unary minus): it must not change how
+    # purely binary chains group
+    if prefix == 1:
+        alts.append("%s e @right(%d)" % (ops[0][0], max(l for _, l, _ in ops) + 1))
+    elif prefix == 2:
+        alts.insert(0, "%s e @right(%d)" % (ops[-1][0], max(l for _, l, _ in ops) + 1))
     alts += ["LP e RP", "NUM"]
     if fn:
         alts.append("FN LP e RP")
@@ -184,6 +190,9 @@ def c05(tier):
         lv = sorted(rng.sample(range(1, 9), nl))
         cases.append(climb_case("ops-%d-%s" % (i, "".join("%s%d" % ("R" if a else "L", n) for a, n in tab)),
                                 tab, lv, fn=(i % 3 == 0)))
+        if i % 2 == 0 or not quick:
+            cases.append(climb_case("ops-%d-%s-pfx%d" % (i, "".join("%s%d" % ("R" if a else "L", n) for a, n in tab), 1 + i % 2),
+                                    tab, lv, fn=False, prefix=1 + (i // 2) % 2))
     lox, mod, acc, runner = PP.prepare(sc, cases)
     if len(acc) != len(cases):
         for c in cases:
